@@ -108,9 +108,10 @@ TARGETS = [
          params=[("diagrams", "DA"), ("plot_only", "OLI"), ("title", "OSTR"), ("xy_range", "OXY"), ("labels", "LBL"),
                  ("colormap", "opaque"), ("size", "opaque"), ("ax_color", "opaque"), ("diagonal", "B"), ("lifetime", "B"),
                  ("legend", "B"), ("show", "opaque"), ("ax", "AX")]),
-    dict(func="bottleneck_matching", lean="bottleneck_matching", pyfile=PYFILE, lead=LEAD_M,
+    # `calls`: the translated plotting functions the reviewed text `Ref.<f>` takes as parameters (used for the stand-in of an unreadable <f>)
+    dict(func="bottleneck_matching", lean="bottleneck_matching", pyfile=PYFILE, lead=LEAD_M, calls=["plot_diagrams"],
          params=[("dgm1", "D"), ("dgm2", "D"), ("matching", "MT"), ("labels", "LS"), ("ax", "AX")]),
-    dict(func="wasserstein_matching", lean="wasserstein_matching", pyfile=PYFILE, lead=LEAD_M,
+    dict(func="wasserstein_matching", lean="wasserstein_matching", pyfile=PYFILE, lead=LEAD_M, calls=["plot_diagrams"],
          params=[("dgm1", "D"), ("dgm2", "D"), ("matching", "MT"), ("labels", "LS"), ("ax", "AX")]),
 ]
 
